@@ -495,7 +495,48 @@ def build_c13(rng, tier):
     return gen_base(rng, p, sessions=sessions, spy_ties=True)
 
 
+def build_c09_big(rng, tier):
+    """generate -> solve at scale: real CBC, oracles without enumeration"""
+    mp = rng.choice(['ha', 'sm', 'hr', 'spa', 'spa'])
+    p = gen_params(rng, mp=mp)
+    p['n1'] = rng.randint(10, 24)
+    if mp != 'sm':
+        p['n2'] = rng.randint(5, 12)
+    n2 = p.get('n2', p['n1'])
+    p['pmax'] = rng.randint(1, min(n2, 5))
+    p['pmin'] = rng.randint(1, p['pmax'])
+    if mp != 'sm':
+        p['uq'] = rng.randint(max(n2, p['n1'] - 3), p['n1'] + 6)
+        p['lq'] = rng.choice([None, 0, 1, 2])
+    if mp == 'spa':
+        p['n3'] = rng.randint(2, 6)
+        p['luq'] = rng.randint(max(p['n3'], p['n1'] - 3), p['n1'] + 6)
+        p['lt'] = rng.choice([None, rng.randint(0, p['luq'])])
+        p['llq'] = None
+    p['numinst'] = 1
+    na = 3 if mp == 'spa' else 2
+    twopl = bool(p['twopl'])
+    crit = gen_criteria(rng, rng.choice([0, 1, 2]), 1)
+    for c in crit:
+        if c['name'] == 'gen':
+            c['extra'] = []
+        if c['name'] == 'gre' and c['extra']:
+            c['extra'] = [rng.randint(1, 3)]
+    opts = {'criteria': crit, 'pc': rng.random() < 0.3,
+            'stab': twopl and rng.random() < 0.5, 'flag_order': None}
+    sess = [{'file': '0.txt', 'na': na, 'twopl': twopl, 'opts': opts,
+             'big': True,
+             'ops': [['solve', {}], ['get_results'], ['get_results_long'],
+                     ['get_debug']],
+             'backend': {'policy': 'real'}}]
+    sc = gen_base(rng, p, sessions=sess)
+    sc['big'] = True
+    return sc
+
+
 def build_c09(rng, tier):
+    if rng.random() < (0.02 if tier == 'thorough' else 0.01):
+        return build_c09_big(rng, tier)
     mp = rng.choice(['ha', 'sm', 'hr', 'spa', 'spa'])
     p = gen_params(rng, mp=mp, small=True)
     p['numinst'] = rng.choice([1, 1, 2])
